@@ -7,7 +7,10 @@
 //!
 //! Trace protocol: command `c09` of the Lean driver (see lean/Pdb/Model/Index.lean).  The
 //! `set` / `del` lines of a transaction are emitted when the transaction is PLANNED
-//! (`process_commits`), followed by `mark` (record verdict) and `stat`.
+//! (`process_commits`), followed by `mark` (record verdict) and `stat`.  Values of the multipart
+//! tier are model-compared as well (token `t255_<len>_<seed>`: the driver derives the number of
+//! parts from `len`; the index model allocates and releases chains slot by slot), so the `stat` /
+//! `slots` lines of C14 cases compare fill mark and free-list length of table 255 too.
 //!
 //! Independent oracle: a BTreeMap of the committed content; every key returns its latest value
 //! at every point; after a crash the content is that of a record prefix not shorter than the
@@ -1196,7 +1199,7 @@ fn random_case(seed: u64, thorough: bool, root: &Path, t: &mut Trace, ctr: &mut 
 	let mut rng = Rng::new(seed);
 	let multipart = prop == "C14" && rng.chance(1, 3);
 	let (keys, desc) = gen_keys(&mut rng, thorough, ctr);
-	let mut c = new_case(seed, "random", &desc, !multipart, root, t, ctr, prop, flags, keys.clone());
+	let mut c = new_case(seed, "random", &desc, true, root, t, ctr, prop, flags, keys.clone());
 	let tag = format!("c09-{}", seed);
 	// fill phase: most of the pool in a few transactions (growth inside a multi-op commit)
 	let mut order: Vec<usize> = (0..keys.len()).collect();
@@ -1468,7 +1471,7 @@ fn steady_case(seed: u64, root: &Path, t: &mut Trace, ctr: &mut Counters, prop: 
 	}
 	let multipart = prop == "C14";
 	let desc = format!("keys={}", keys.len());
-	let mut c = new_case(seed, "steady-workload", &desc, !multipart, root, t, ctr, prop, flags, keys.clone());
+	let mut c = new_case(seed, "steady-workload", &desc, true, root, t, ctr, prop, flags, keys.clone());
 	for cycle in 0..400 {
 		let mut tx: Tx = vec![];
 		for _ in 0..rng.range(1, 6) {
